@@ -43,6 +43,10 @@ Cur(inp, p) == IF p > Len(inp) THEN 0 ELSE inp[p]
 IsWs(c) == c \in {32, 9, 13, 10}
 IsDigit(c) == c >= 48 /\ c <= 57
 IsQuote(c) == c \in {34, 39}
+\* strict mode = RFC 8259 only (used as the "independent parser" of the serializer's output):
+\* double quotes, quoted keys, RFC number grammar, RFC escapes
+Strict(o) == "strict" \in DOMAIN o /\ o.strict
+IsQuoteO(c, o) == IF Strict(o) THEN c = 34 ELSE IsQuote(c)
 IsAlpha(c) == (c >= 65 /\ c <= 90) \/ (c >= 97 /\ c <= 122)
 CanBeInNumber(c, o) ==
   IsDigit(c) \/ c \in {43, 45, 46} \/ (IF o.nan \/ o.inf THEN IsAlpha(c) ELSE c \in {101, 69})
@@ -138,7 +142,7 @@ QuotedBody(inp, p, stop, o, acc, hi) ==
                 ELSE IF u >= 56320 /\ u < 57344
                      THEN QuotedBody(inp, p + 6, stop, o, acc \o Utf8(65536 + hi * 1024 + Mod(u, 1024)), hi)
                      ELSE QuotedBody(inp, p + 6, stop, o, acc \o Utf8(u), hi)
-    ELSE IF Unescape(e) = 0 THEN [code |-> "InvalidInput", b |-> acc, p |-> p + 1]
+    ELSE IF Unescape(e) = 0 \/ (Strict(o) /\ e = 39) THEN [code |-> "InvalidInput", b |-> acc, p |-> p + 1]
     ELSE QuotedBody(inp, p + 2, stop, o, Append(acc, Unescape(e)), hi)
   ELSE QuotedBody(inp, p + 1, stop, o, Append(acc, c), hi)
 
@@ -157,10 +161,10 @@ NonQuotedRun(inp, p, acc) ==
 
 \* key of a member: [code, b, p, ld]
 ParseKey(inp, p, o) ==
-  IF IsQuote(Cur(inp, p))
+  IF IsQuoteO(Cur(inp, p), o)
   THEN LET r == QuotedBody(inp, p + 1, Cur(inp, p), o, <<>>, 0) IN [code |-> r.code, b |-> r.b, p |-> r.p, ld |-> FALSE]
   ELSE LET r == NonQuotedRun(inp, p, <<>>) IN
-       IF r.b = <<>> THEN [code |-> "InvalidInput", b |-> <<>>, p |-> p, ld |-> TRUE]
+       IF r.b = <<>> \/ Strict(o) THEN [code |-> "InvalidInput", b |-> <<>>, p |-> p, ld |-> TRUE]
        ELSE [code |-> "Ok", b |-> r.b, p |-> r.p, ld |-> TRUE]
 
 SkipKey(inp, p) ==
@@ -183,7 +187,21 @@ NumberRun(inp, p, o, acc) ==
 RECURSIVE DigitsEnd(_, _)            \* first index >= i that is not a digit
 DigitsEnd(s, i) == IF i <= Len(s) /\ IsDigit(s[i]) THEN DigitsEnd(s, i + 1) ELSE i
 
+\* RFC 8259: -? (0 | [1-9] digit*) ('.' digit+)? ([eE] [+-]? digit+)?
+StrictNumber(s) ==
+  LET i0 == IF Len(s) >= 1 /\ s[1] = 45 THEN 2 ELSE 1
+      i1 == DigitsEnd(s, i0)
+      intOk == i1 > i0 /\ (s[i0] # 48 \/ i1 = i0 + 1)
+      i2 == IF i1 <= Len(s) /\ s[i1] = 46 THEN DigitsEnd(s, i1 + 1) ELSE i1
+      fracOk == i2 = i1 \/ i2 > i1 + 1
+      i3 == IF i2 <= Len(s) /\ s[i2] \in {101, 69}
+            THEN LET j == IF i2 + 1 <= Len(s) /\ s[i2 + 1] \in {43, 45} THEN i2 + 2 ELSE i2 + 1 IN DigitsEnd(s, j)
+            ELSE i2
+      expOk == i3 = i2 \/ (LET j == IF i2 + 1 <= Len(s) /\ s[i2 + 1] \in {43, 45} THEN i2 + 2 ELSE i2 + 1 IN i3 > j)
+  IN intOk /\ fracOk /\ expOk /\ i3 = Len(s) + 1
+
 ValidNumber(s, o) ==
+  IF Strict(o) THEN StrictNumber(s) ELSE
   LET i0 == IF Len(s) >= 1 /\ s[1] \in {43, 45} THEN 2 ELSE 1
       c0 == IF i0 <= Len(s) THEN s[i0] ELSE 0
   IN IF o.nan /\ c0 \in {110, 78} THEN TRUE
@@ -316,7 +334,7 @@ ParseVariant(inp, p0, o, lim, f, lvl, found) ==
            IF w2.code # "Ok" THEN Res(w2.code, ObjB(<<>>), w2.p, TRUE, lvl + 1)
            ELSE IF Cur(inp, w2.p) = 125 THEN Res("Ok", ObjB(<<>>), w2.p + 1, FALSE, lvl + 1)
            ELSE ParseObjectLoop(inp, w2.p, o, lim - 1, f, lvl + 1, <<>>)
-    ELSE IF IsQuote(c) THEN
+    ELSE IF IsQuoteO(c, o) THEN
       IF ~AllowValue(f) THEN SkipVariant(inp, p, o, lim, lvl)
       ELSE LET r == QuotedBody(inp, p + 1, c, o, <<>>, 0) IN
            Res(r.code, IF r.code = "Ok" THEN StrB(r.b) ELSE NullV, r.p, FALSE, lvl)
@@ -373,7 +391,7 @@ ParseObjectLoop(inp, p, o, lim, f, lvl, acc) ==
 (***************************************************************************)
 AllowAll == TrueV
 
-Deserialize(inp, o, lim, f) ==
+DeserializeJson(inp, o, lim, f) ==
   LET r == ParseVariant(inp, 1, o, lim, f, 0, FALSE)
       trailing == r.code = "Ok" /\ r.v.t = "#" /\ ~(Cur(inp, r.p) = 0 \/ IsWs(Cur(inp, r.p)))
       code == IF trailing THEN "InvalidInput" ELSE r.code
